@@ -13,6 +13,14 @@ def comp_job(module, cls, cfg):
     from vlib import tsx
     H = getattr(importlib.import_module(module), cls)
     h = H(**cfg)
+    if not hasattr(h, "_construct"):        # plain-Amaranth harness (RawHarness)
+        from transactron.utils.dependencies import DependencyContext, DependencyManager
+        with DependencyContext(DependencyManager()):
+            try:
+                tsx.check_comb_cycles(h.make()[0])
+                return {"cls": cls, "cfg": cfg, "loop": None}
+            except tsx.CombLoop as e:
+                return {"cls": cls, "cfg": cfg, "loop": str(e)[:300]}
     top, ports, xin, xobs, ctx = h._construct()
     try:
         tsx.check_comb_cycles(top)
@@ -30,8 +38,8 @@ def run(rep, tier):
                 "bit-precise netlist builder (check_comb_cycles); a CombinationalCycle is a violation. A 'state' here is one "
                 "design, a 'transition' one netlist build; non-trivial = designs of the fwd family + designs with conflicts")
     rep.assumptions = ASSUME + ["amaranth.hdl._ir.build_netlist's check_comb_cycles is the definition of a combinational cycle"]
-    fams = ["fwd", "flat_s", "chain_s", "ctrl", "rel2", "rel3", "nest", "val", "prov"] if tier == "quick" else \
-        ["fwd", "flat", "flat3_s", "flat_args_s", "chain", "ctrl", "rel2", "rel3", "rel4", "nest", "val", "prov"]
+    fams = ["fwd", "flat_s", "chain_s", "ctrl", "rel2", "rel3", "nest", "val", "prov", "provrel"] if tier == "quick" else \
+        ["fwd", "flat", "flat3_s", "flat_args_s", "chain", "ctrl", "rel2", "rel3", "rel4", "nest", "val", "prov", "provrel"]
     FAMS_Q.setdefault("fwd", ("fwd", {}))
     run_family_check(rep, "C10", [FAMS_Q[n] for n in fams], simulate=False, props=["C10"])
     # library components
